@@ -11,6 +11,8 @@ Line protocol (same lines go to the Go driver = real code and to the Lean driver
   sum <engine> <cfg> <rows>                                 summaries the real writer produces (model abstains)
   mpart <sids> <lo> <hi> <sid:ts[*n]>...                    measure: real memPart writer + partIter, time/series pruning (model abstains)
   bnd <order tag> <rows> | <crit>                           trace buildFilter: sidx key range derived for the order-by tag
+  e2e <cfg> <lo> <hi> <rows, "/" between parts> | <crit>    real stream TSDB + stream.Query under one index configuration (model abstains)
+  sq <sids> <minKey|-> <maxKey|-> <sid:key:payload:v*6>.. | <crit>   real SIDX StreamingQuery with tag filter / key range (model abstains)
 
 values: N null, M nil (absent), S<hex> string, I<dec> int, A<hex,..> string array, J<dec,..> int array
 criteria (prefix): and C C | or C C | <op> <tag> <value>, op in eq ne lt le gt ge in nin hav nhav match
@@ -610,6 +612,61 @@ class C08(vlib.Spec):
         self.note_leaves(c, rows)
         return "bnd %s %s | %s" % (TAGS[ti], " ".join(":".join(tok(v) for v in r) for r in rows), " ".join(crit_tokens(c)))
 
+    def g_e2e(self, rng):
+        """one small dataset (2-3 series x 2-3 parts with disjoint time ranges) queried end to end under three index
+        configurations (none / inverted / skipping on the criteria's tags); returns the three lines."""
+        nser = rng.choice([2, 2, 3])
+        nparts = rng.choice([2, 2, 3])
+        rows, toks = [], []
+        for b in range(nparts):
+            if b:
+                toks.append("/")
+            for _ in range(rng.choice([1, 2, 3])):
+                r = rand_row(rng, 0.15, False)
+                r[1] = rand_str(rng, False)          # tag t is never null: every element stays reachable (F26)
+                for i in (4, 5):
+                    if isinstance(r[i], tuple) and not r[i][1]:
+                        r[i] = None
+                rows.append(r)
+                # series with the larger id tends to live in the later parts
+                sid = rng.choice([min(nser, b + 1), rng.randint(1, nser)])
+                toks.append("%d:%d:%s" % (sid, 100 + b * 1000 + rng.randint(0, 300), ":".join(tok(v) for v in r)))
+        c = self.wf_crit(rng, rows, rng.choice([0, 1, 2]), edge=False)
+        used = set(l[1] for l in leaves(c)) | {1}
+        lo, hi = 0, 3500
+        if rng.random() < 0.3:
+            lo = rng.choice([150, 1050, 1500])
+        if rng.random() < 0.3:
+            hi = rng.choice([1200, 2050, 2500])
+        self.note_leaves(c, rows)
+        out = []
+        for ch in "nvk":
+            cfg = "".join(ch if i in used else "n" for i in range(6))
+            out.append("e2e %s %d %d %s | %s" % (cfg, lo, hi, " ".join(toks), " ".join(crit_tokens(c))))
+        return out
+
+    def g_sq(self, rng):
+        nser = rng.choice([1, 1, 2])
+        payloads = ["41", "42", "43", "4444"][:rng.choice([2, 3, 4])]
+        n = rng.choice([3, 4, 6, 8, 10])
+        rows, toks = [], []
+        key = rng.randint(0, 50)
+        for _ in range(n):
+            r = rand_row(rng, 0.15, False)
+            for i in (4, 5):
+                if isinstance(r[i], tuple) and not r[i][1]:
+                    r[i] = None
+            rows.append(r)
+            toks.append("%d:%d:%s:%s" % (rng.randint(1, nser), key, rng.choice(payloads), ":".join(tok(v) for v in r)))
+            key += rng.choice([1, 1, 5, 50])
+        # few distinct values per column so that several rows of one payload differ in the verdict
+        c = self.wf_crit(rng, rows, rng.choice([0, 0, 1, 2]), edge=False)
+        sids = sorted(set(rng.sample(range(1, nser + 1), rng.randint(1, nser))))
+        mn = str(rng.randint(0, key)) if rng.random() < 0.4 else "-"
+        mx = str(rng.randint(0 if mn == "-" else int(mn), key + 10)) if rng.random() < 0.3 else "-"
+        self.note_leaves(c, rows)
+        return "sq %s %s %s %s | %s" % (",".join(map(str, sids)), mn, mx, " ".join(toks), " ".join(crit_tokens(c)))
+
     def cases(self, rng, n):
         out = []
         w = [("bloom", 0.07), ("dict", 0.09), ("tf", 0.28), ("skip", 0.20), ("inv", 0.07), ("invx", 0.02),
@@ -641,6 +698,11 @@ class C08(vlib.Spec):
             out.append(self.g_part(rng, big=True))
         for _ in range(min(20, max(4, n // 1000))):
             out.append(self.g_mpart(rng, big=True))
+        for _ in range(max(200, n // 40)):
+            out.append(self.g_sq(rng))
+        # end to end through a real TSDB: ~2 s per line, so only a handful of datasets (x3 configurations)
+        for _ in range(min(60, max(8, n // 1100))):
+            out.extend(self.g_e2e(rng))
         return out
 
     # ---------------- oracle -----------------
@@ -671,6 +733,10 @@ class C08(vlib.Spec):
             return self.o_mpart(f, o)
         if k == "bnd":
             return self.o_bnd(f, o)
+        if k == "e2e":
+            return self.o_e2e(f, o)
+        if k == "sq":
+            return self.o_sq(f, o)
         return None
 
     def o_bloom(self, f, o):
@@ -917,10 +983,57 @@ class C08(vlib.Spec):
                 return ("violation", "row with %s=%d satisfies the criteria but lies outside the scan key range [%d,%d]" % (f[1], v, mn, mx))
         return None
 
+    def o_e2e(self, f, o):
+        v, bits = o[0], o[1] if len(o) > 1 else ""
+        if v in ("PANIC", "CPANIC"):
+            return ("violation", "stream query crashed on a well-formed query: " + v)
+        if v.startswith("CERR") or bits in ("B", "-"):
+            return None
+        if v.startswith("E:"):
+            return ("violation", "stream query failed: " + v)
+        ids = set() if v == "-" else set(int(x) for x in v.split(","))
+        lo, hi = int(f[2]), int(f[3])
+        bar = f.index("|")
+        rows = [t for t in f[4:bar] if t != "/"]
+        for n, (t, b) in enumerate(zip(rows, bits)):
+            ts = int(t.split(":")[1])
+            if b == "1" and lo <= ts <= hi and (n + 1) not in ids:
+                return ("violation", "configuration %s: element %d (series %s, ts %d) satisfies the criteria inside the time range "
+                        "but stream.Query does not return it (returned %s)" % (f[1], n + 1, t.split(":")[0], ts, v))
+        for i in ids:
+            ts = int(rows[i - 1].split(":")[1])
+            if not lo <= ts <= hi:
+                return ("violation", "element %d outside the queried time range was returned" % i)
+        return None
+
+    def o_sq(self, f, o):
+        v, bits = o[0], o[1] if len(o) > 1 else ""
+        if v.startswith("CERR") or bits in ("B", "-"):
+            return None
+        if v.startswith("E:"):
+            return ("violation", "sidx query failed: " + v)
+        got = set() if v == "-" else set(v.split(","))
+        sids = set(int(x) for x in f[1].split(","))
+        mn = None if f[2] == "-" else int(f[2])
+        mx = None if f[3] == "-" else int(f[3])
+        bar = f.index("|")
+        want = set()
+        for t, b in zip(f[4:bar], bits):
+            p = t.split(":")
+            key = int(p[1])
+            if b == "1" and int(p[0]) in sids and (mn is None or key >= mn) and (mx is None or key <= mx):
+                want.add(p[2])
+        if got != want:
+            if want - got:
+                return ("violation", "payload %s has an element that satisfies the criteria and key range but the sidx query "
+                        "does not return it (got %s)" % (sorted(want - got)[0], v))
+            return ("violation", "sidx query returned payload %s although none of its elements qualifies" % sorted(got - want)[0])
+        return None
+
     # ---------------- plumbing -----------------
 
     def compare(self, line, g, l):
-        if line.startswith(("part", "sum", "mpart")):
+        if line.startswith(("part", "sum", "mpart", "e2e", "sq")):
             return True            # model abstains: block layout / encoders are outside the model
         return g == l
 
@@ -937,7 +1050,7 @@ class C08(vlib.Spec):
             return line if g in ("0", "1") else None
         if f[0] == "mpart":
             return line if len(o) > 3 and o[2] != o[3] and o[3] != "-" else None
-        if f[0] in ("skip", "inv", "invx", "part", "partx", "bnd"):
+        if f[0] in ("skip", "inv", "invx", "part", "partx", "bnd", "e2e", "sq"):
             bits = o[-1] if o else ""
             return line if ("1" in bits and "0" in bits) else None
         if f[0] == "bloom":
